@@ -174,10 +174,16 @@ func normalise(s string) string {
 	var sb strings.Builder
 	var q rune
 	space := false
+	esc := false
 	for _, r := range s {
 		if q != 0 {
 			sb.WriteRune(r)
-			if r == q {
+			switch {
+			case esc:
+				esc = false
+			case r == '\\':
+				esc = true
+			case r == q:
 				q = 0
 			}
 			continue
@@ -186,7 +192,8 @@ func normalise(s string) string {
 			space = true
 			continue
 		}
-		if space && sb.Len() > 0 {
+		if space && sb.Len() > 0 && r != ';' {
+			// (white space before the terminating semicolon carries no meaning)
 			sb.WriteByte(' ')
 		}
 		space = false
@@ -375,6 +382,8 @@ func genC20(seed uint64, thorough bool) *c20Case {
 			case 4:
 				if special && r.Chance(0.3) {
 					sb.WriteString("; ")
+				} else if special && r.Chance(0.25) {
+					sb.WriteString("\\" + q) // it\'s: the engine's scanner takes the quote as part of the literal
 				} else {
 					sb.WriteString("x")
 				}
@@ -390,6 +399,9 @@ func genC20(seed uint64, thorough bool) *c20Case {
 		nt := r.Range(1, 10)
 		if r.Chance(0.03) {
 			nt = r.Range(30, 70) // a statement over many lines / a line longer than 256 bytes
+		}
+		if r.Chance(0.004) {
+			nt = r.Range(700, 1500) // a multi-row INSERT of several thousand characters
 		}
 		var toks, seps []string
 		if i > 0 && r.Chance(0.06) {
@@ -417,6 +429,8 @@ func genC20(seed uint64, thorough bool) *c20Case {
 				seps = append(seps, []string{"\r\r", "\r \r", " \r\r\r"}[r.Intn(3)])
 			case r.Chance(0.25):
 				seps = append(seps, "\r")
+			case j < nt-1 && r.Chance(0.04):
+				seps = append(seps, []string{"\t", " \t", "\t\t"}[r.Intn(3)]) // the TAB key between two words
 			default:
 				seps = append(seps, " ")
 			}
@@ -587,10 +601,7 @@ func TestVerifC20(t *testing.T) {
 		res.Seeds[1] = seed
 		c := genC20(seed, thorough)
 		if d, _ := c.stream(); longestLine(d) > 3500 {
-			// the line editor holds at most 4096 runes per entry (a documented
-			// limit of the terminal code, not part of the property): stay below it
-			res.Stats["skipped_line_over_3500"]++
-			continue
+			res.Stats["probe_line_over_3500_bytes"]++
 		}
 		res.Evals++
 		data, _ := c.stream()
